@@ -275,14 +275,14 @@ def process_pyro_request(environ, path, parameters, start_response):
                     start_response('500 Internal Server Error', cors_response_header([
                       ('Content-Type', 'application/json; charset=utf-8')
                       ], pyro_app.cors))
-                    return [msg.data]
+                    return [bytes(msg.data)]    # (a memoryview when the reply came with annotations: a WSGI server writes bytes only)
                 else:
                     # normal response
                     start_response('200 OK', cors_response_header([
                       ('Content-Type', 'application/json; charset=utf-8'),		
                       ('X-Pyro-Correlation-Id', str(callcontext.current_context.correlation_id))
                       ], pyro_app.cors))
-                    return [msg.data]
+                    return [bytes(msg.data)]
     except Exception as x:
         stderr = environ["wsgi.errors"]
         print("ERROR handling {0} with params {1}:".format(path, parameters), file=stderr)
